@@ -38,28 +38,34 @@ def run(chk):
         name = f['path'].rsplit('::', 1)[-1]
         if name not in ('transpile_expr', 'transpile_def', 'transpile'):
             continue
-        for n, ctx in T.walk_ctx(f['body']):
+        where = T.norm(f['path'])
+        for n in T.walk(f['body']):
+            # (a) unencoded conversions of a value / literal text into output text
             if n.get('k') == 'MCall' and n['n'] == 'to_string':
                 rt = (types[n['rt']] or '')
                 recv = T.show(n['r'])
-                kind = None
-                if 'ValueObj' in rt:
-                    kind = 'value:' + recv
-                elif recv.endswith('token.content'):
-                    kind = 'literal:' + recv
+                kind = 'value:' + recv if 'ValueObj' in rt else ('literal:' + recv if recv.endswith('token.content') else None)
                 if kind is None:
                     continue
                 sources += 1
-                where = T.norm(f['path'])
-                # is this to_string() an argument of an encoder call?
-                wrapped = False
-                for m in T.walk(f['body']):
-                    if is_encoder_call(m, enc) and any(x is n for a in m['a'] for x in T.walk(a)):
-                        wrapped = True
+                wrapped = any(is_encoder_call(m, enc) and any(x is n for a in m['a'] for x in T.walk(a)) for m in T.walk(f['body']))
                 if wrapped:
                     chk.ok('C18-encode', (where, kind), sample='%s: %s passes through an encoder' % (where, kind))
                 else:
                     chk.bad('C18-encode', where, kind, '%s writes `%s` into the JSON output without encoding: True/False/None, strings with quotes or control characters '
                             'produce invalid or different JSON' % (where, T.show(n)), TR, n['l'])
-    chk.floor('text sources in JsonGenerator', sources, 2)
+            # (b) encoded conversions
+            if is_encoder_call(n, enc) and n.get('k') == 'Call' and n['a']:
+                at = types[T.peel(n['a'][0]).get('ty', 0)] if isinstance(T.peel(n['a'][0]).get('ty'), int) else ''
+                if 'ValueObj' in (at or '') or 'Str' in (at or '') or 'str' in (at or ''):
+                    sources += 1
+                    chk.ok('C18-encode', (where, 'encoded:' + T.show(n['a'][0])), sample='%s: %s' % (where, T.show(n)))
+        # the Literal arm must not fall back to the raw token text
+        for m in [x for x in T.walk(f['body']) if x.get('k') == 'Match' and x.get('src') == 'Normal']:
+            for arm in m['arms']:
+                if any(v.endswith('hir::Expr::Literal') for v in T.pat_variants(arm['pat'])):
+                    if any(is_encoder_call(c, enc) for c in T.calls(arm['b'])):
+                        chk.ok('C18-encode', (where, 'Literal-arm'))
+                    elif not any(c.get('k') == 'MCall' and c['n'] == 'to_string' for c in T.calls(arm['b'])):
+                        chk.lost.append('%s: the Expr::Literal arm produces its text in an unrecognised way' % where)
     return ('Flow rule inside JsonGenerator (typed HIR: receiver types of to_string). Decides that value text is encoded; that the values equal the initializers is not decided.'), {}
